@@ -1144,8 +1144,11 @@ impl Relation {
         builder.start_node(SyntaxKind::RELATION.into());
         builder.token(IDENT.into(), self.name().as_str());
         if let Some(archqual) = self.archqual() {
+            // as the parser builds it: archqual() looks for this node
+            builder.start_node(ARCHQUAL.into());
             builder.token(COLON.into(), ":");
             builder.token(IDENT.into(), archqual.as_str());
+            builder.finish_node();
         }
         if let Some((vc, version)) = self.version() {
             builder.token(WHITESPACE.into(), " ");
